@@ -235,7 +235,9 @@ class Heap:
             return ('key', k.cls)
         if isinstance(k, SStr):
             c = k.concrete()
-            return ('val', c) if c is not None else ('sym', k.key())
+            return ('key', c) if c is not None else ('sym', k.key())
+        if isinstance(k, str):
+            return ('key', k)        # a plain string equals the case-insensitive key only in the lower-cased spelling
         return ('val', k)
 
     def dict_get(self, dref, key, lineno=0):
@@ -571,6 +573,8 @@ class Interp:
         fn = e.func
         args = [self.ev(a, env, cls) for a in e.args]
         kwargs = {k.arg: self.ev(k.value, env, cls) for k in e.keywords}
+        if norm(fn) in ('functools.partial', 'partial') and args and 'partial' not in env:
+            return ('partial', args[0], tuple(args[1:]), dict(kwargs))
         if isinstance(fn, ast.Name) and fn.id in h.hooks:
             return h.hooks[fn.id](self, args, kwargs)
         if isinstance(fn, ast.Attribute) and norm(fn) in h.hooks:
@@ -710,6 +714,10 @@ class Interp:
                     return args[1]
                 raise Raised('KeyError', h.version, e.lineno)
         f = self.ev(fn, env, cls)
+        while isinstance(f, tuple) and f and f[0] == 'partial':
+            args = list(f[2]) + list(args)
+            kwargs = dict(f[3], **kwargs)
+            f = f[1]
         if isinstance(f, Closure):
             return self.call(f, args, kwargs)
         if isinstance(f, tuple) and f and f[0] == 'hook':
